@@ -228,6 +228,25 @@ func init() {
 					}
 				}
 			}
+			// WHICH refusal a header above the caller's limit meets (C12_oversized_header_refused):
+			// the session's own limit one byte short, and a file written under the default limit
+			// reopened with a short one; CARv2 -> "error reading car header" (the first header read is
+			// the 11-byte pragma), CARv1 -> the ReadVersion call of ResumableVersion; class hdr2big
+			shortV1 := shortH
+			shortV1.v1 = true
+			defV1 := defaultWOpts
+			defV1.v1 = true
+			tiny := defaultWOpts
+			tiny.maxH = 10 // the pragma still fits, nothing else
+			for _, kind := range []uint64{0, 1} {
+				for _, cut := range []string{"discard", "finalize"} {
+					c12EmitMismatch(c, kind, shortH, roots, puts, cut, shortH, roots, "limits:refusal-own-limit")
+					c12EmitMismatch(c, kind, shortV1, roots, puts, cut, shortV1, roots, "limits:refusal-own-limit-v1")
+					c12EmitMismatch(c, kind, defaultWOpts, roots, puts, cut, shortH, roots, "limits:refusal-shorter-limit")
+					c12EmitMismatch(c, kind, defV1, roots, puts, cut, shortV1, roots, "limits:refusal-shorter-limit-v1")
+					c12EmitMismatch(c, kind, defaultWOpts, roots, puts, cut, tiny, roots, "limits:refusal-tiny-limit")
+				}
+			}
 		}
 		// ---- (b) mismatching reopen ------------------------------------------------------------
 		nBase := 6 * c.Scale
